@@ -345,7 +345,10 @@ def coq_definitions(result, prefix):
         r = result[name]
         if r["status"] != "translated":
             continue
-        lines.append("Definition %s%s : %s :=\n  %s." % (prefix, name, r.get("type", "stmt"), r["term"]))
+        if "type" in r:
+            lines.append("Definition %s%s : %s :=\n  %s." % (prefix, name, r["type"], r["term"]))
+        else:
+            lines.append("Definition %s%s : prog := mk_prog %d\n  (%s)." % (prefix, name, r["nvars"], r["term"]))
     return "\n".join(lines) + "\n"
 
 
